@@ -527,7 +527,7 @@ func allChecks() []CheckSpec {
 				{Fn: "verifC14RoundTrip", Lemma: "k packets through the real writer then the real reader under every chunking: same sequence and contents, then EOF",
 					Bounds: "k <= 2 packets of 0..2 (quick) / 0..3 (thorough) bytes, every chunking", MustReach: []string{"done"}},
 				{Fn: "verifC14StartReading", Lemma: "tcpPacketConn.startReading + readFromContext: frames become packets in order with the peer address; a truncated tail ends in an error packet; the stream is closed and removed",
-					Bounds: "0..2 frames of 0..2 bytes, three tail shapes (none, half header, truncated body), every chunking", MustReach: []string{"oversized-frame", "done"}},
+					Bounds: "0..2 frames of 0..2 bytes, three tail shapes (none, half header, truncated body), every chunking", MustReach: []string{"oversized-frame", "short-len-buffer", "frame-longer-than-the-read-buffer", "done"}},
 				{Fn: "verifC14BufferedWrite", Lemma: "with a write buffer between the packet conn and the TCP connection (the real bufferedConn and its writeProcess goroutine over the real packetio.Buffer) every packet the framing layer accepts is forwarded to the connection exactly once as the same frame, packets at the receive MTU included, and later packets keep their order",
 					Bounds: "payloads of 5, 8190, 8191 and 8192 bytes (first and last byte symbolic) followed by a 4-byte packet", MustReach: []string{"mtu-sized", "done"},
 					Cfg: func(c *HarnessCfg, tier int) { c.GoPolicy = "queue"; c.MaxAlloc = 1 << 20 }},
